@@ -424,7 +424,7 @@ pub fn run(ck: &mut Check) {
         oracle,
     );
     ck.floor("creator_cells", "creator_without_users_map", 1000);
-    let n = ck.n(600_000, 10_000_000);
+    let n = ck.n(1_500_000, 10_000_000);
     ck.prop("random_power_levels", n, random_case, oracle);
     ck.floor("random_power_levels", "boundary_level", 5000);
     ck.floor("random_power_levels", "creator_involved", 5000);
